@@ -876,6 +876,106 @@ Section Gen.
         destruct t0 as [k0 s0 o0 d0 a0 b0 c0 p0]. cbn [children] in C. subst. reflexivity.
       + intros c. cbn [setch children]. apply In_outs.
   Qed.
+
+  (* ================================================================== phase ordering of the graph of the code *)
+  Definition posslot (s : nat) : bool := match s with 1 | 3 | 5 | 10 | 12 | 14 => true | _ => false end.
+  Definition pdir (s : nat) : nat := match s with 1 | 10 => 0 | 3 | 12 => 2 | _ => 4 end.
+  (* the subgrids touched by the task of slot s of subgrid j *)
+  Definition touch_spec (j s : nat) : list nat :=
+    j :: match (if posslot s then nb Y j (pdir s) else None) with Some j' => [j'] | None => [] end.
+
+  Lemma slot_touches : forall j s, s < 18 -> present j s = true -> touches (task_at (j, s)) = touch_spec j s.
+  Proof.
+    intros j s H P.
+    do 18 (destruct s as [|s];
+      [ cbv [present sl slot_tasks nth pos_slot neg_slot] in P;
+        cbv [task_at fst snd sl slot_tasks nth pos_slot neg_slot touch_spec posslot pdir];
+        try (destruct (nb Y j _) eqn:E; try discriminate P); reflexivity | ]).
+    lia.
+  Qed.
+
+  Lemma posslot_next : forall s, posslot s = true ->
+    negslot (S s) = true /\ ndir (S s) = S (pdir s) /\ In (pdir s) [0; 2; 4] /\ S s < 18.
+  Proof.
+    intros s N.
+    do 18 (destruct s as [|s]; [ try discriminate N; cbv [ndir negslot pdir In]; repeat split; auto; lia | ]).
+    discriminate N.
+  Qed.
+
+  (* a task that touches subgrid x sits, seen from x, in a slot of x (its own, or the negative-side slot that is
+     resolved to the neighbour's positive-side pair task) *)
+  Lemma touch_ref : forall i s x, valid (i, s) -> In x (touches (task_at (i, s))) ->
+    x < nsub Y /\ exists s', s' < 18 /\ ref x s' = (i, s) /\ slotrank s' = slotrank s.
+  Proof.
+    intros i s x [V1 V2] H. cbn [fst snd] in *. pose proof (present_lt _ _ V2) as Hs.
+    rewrite slot_touches in H by auto. unfold touch_spec in H. destruct H as [<-|H].
+    - split; auto. exists s. unfold ref. rewrite V2. auto.
+    - destruct (posslot s) eqn:PS; [|destruct H].
+      destruct (nb Y i (pdir s)) as [j'|] eqn:E; [|destruct H].
+      destruct H as [<-|[]]. destruct (posslot_next s PS) as [Ng [Nd [D Hs']]].
+      destruct (nb_up_dn i j' _ V1 D E) as [A B]. split; auto.
+      exists (S s). split; auto. split.
+      + unfold ref. rewrite present_spec by auto. rewrite Ng, Nd, B. cbn [isSome negb oget Nat.sub].
+        rewrite Nat.sub_0_r. reflexivity.
+      + pose proof (negslot_rank (S s) Ng) as Q. cbn [Nat.sub] in Q. rewrite Nat.sub_0_r in Q. auto.
+  Qed.
+
+  (* the template T of set_dependencies is EXACTLY the set of slot pairs of consecutive phases *)
+  Lemma T_complete_b :
+    forallb (fun s => forallb (fun s' => negb (slotrank s' =? S (slotrank s)) || existsb (peqb (s, s')) T)
+                              (seq 0 18)) (seq 0 18) = true.
+  Proof. vm_compute. reflexivity. Qed.
+
+  Lemma T_complete : forall s s', s < 18 -> s' < 18 -> slotrank s' = S (slotrank s) -> In (s, s') T.
+  Proof.
+    intros s s' H H' R. pose proof T_complete_b as B. rewrite forallb_forall in B.
+    specialize (B s). rewrite forallb_forall in B by (apply in_seq; lia).
+    specialize (B ltac:(apply in_seq; lia) s' ltac:(apply in_seq; lia)).
+    rewrite R, Nat.eqb_refl in B. cbn [negb orb] in B. apply existsb_exists in B.
+    destruct B as [e [E1 E2]]. apply peqb_spec in E2. subst. exact E1.
+  Qed.
+
+  Lemma edge_in_EN : forall j s s', j < nsub Y -> In (s, s') T -> In (num (ref j s), num (ref j s')) EN.
+  Proof.
+    intros j s s' Hj H. unfold EN. apply in_map_iff. exists (ref j s, ref j s'). split. reflexivity.
+    unfold Eref. apply in_flat_map. exists j. split. apply in_seq; lia.
+    unfold eref. apply in_map_iff. exists (s, s'). auto.
+  Qed.
+
+  Lemma graph_rk : forall r, valid r -> rk (make_graph true Y) (num r) = slotrank (snd r).
+  Proof.
+    intros [j s] V. unfold rk. rewrite graph_task by auto. cbn [setch kind snd].
+    destruct V as [V1 V2]. cbn [fst snd] in V2. apply (slot_facts j s (present_lt _ _ V2) V2).
+  Qed.
+
+  Lemma graph_touches : forall r, valid r -> touches (tk (make_graph true Y) (num r)) = touches (task_at r).
+  Proof. intros r V. rewrite graph_task by auto. reflexivity. Qed.
+
+  Theorem make_graph_phases_gen : phases_ordered (make_graph true Y).
+  Proof.
+    constructor.
+    - intros x t1 t2 H1 H2 T1 T2 R. rewrite graph_length in H1, H2.
+      destruct (num_decode t1 H1) as [[i1 s1] [V1 <-]]. destruct (num_decode t2 H2) as [[i2 s2] [V2 <-]].
+      rewrite graph_touches in T1, T2 by auto. rewrite !graph_rk in R by auto. cbn [snd] in R.
+      destruct (touch_ref _ _ _ V1 T1) as [Hxx [a [A1 [A2 A3]]]].
+      destruct (touch_ref _ _ _ V2 T2) as [_ [b [B1 [B2 B3]]]].
+      rewrite graph_task by auto. cbn [setch children]. apply In_outs. rewrite <- A2, <- B2.
+      apply edge_in_EN; auto. apply T_complete; auto. rewrite A3, B3. exact R.
+    - intros x t k Ht Tt Hk. rewrite graph_length in Ht. destruct (num_decode t Ht) as [[i s] [V <-]].
+      rewrite graph_touches in Tt by auto. destruct (touch_ref _ _ _ V Tt) as [Hxx _].
+      assert (Q : exists sk, sk < 18 /\ negslot sk = false /\ slotrank sk = k).
+      { do 6 (destruct k as [|k];
+          [ first [ exists 0; repeat split; (reflexivity || lia) | exists 7; repeat split; (reflexivity || lia)
+                  | exists 8; repeat split; (reflexivity || lia) | exists 9; repeat split; (reflexivity || lia)
+                  | exists 16; repeat split; (reflexivity || lia) | exists 17; repeat split; (reflexivity || lia) ] | ]).
+        lia. }
+      destruct Q as [sk [Q1 [Q2 Q3]]].
+      assert (P : present x sk = true) by (rewrite present_spec by auto; rewrite Q2; reflexivity).
+      assert (Vk : valid (x, sk)) by (split; auto).
+      exists (num (x, sk)). split. rewrite graph_length. apply num_lt; auto.
+      split. rewrite graph_touches by auto. rewrite slot_touches by auto. left; reflexivity.
+      rewrite graph_rk by auto. exact Q3.
+  Qed.
 End Gen.
 
 (* every layout: any number (>= 1) of subgrids per axis, every periodicity *)
@@ -921,3 +1021,7 @@ Proof.
                                     | apply (nb_dn_up Y Hy Hz i j _ Hi) in H; [apply H | simpl; tauto] ] | ]).
   lia.
 Qed.
+
+(* every layout: per subgrid, tasks of consecutive phases are linked by direct child edges, all six phases populated *)
+Theorem make_graph_phases : forall Y, 1 <= lnx Y -> 1 <= lny Y -> 1 <= lnz Y -> phases_ordered (make_graph true Y).
+Proof. intros. apply make_graph_phases_gen; auto. Qed.
